@@ -44,7 +44,7 @@ def jobs(tier, seed):
     js += [{"sub": "bb", "chunk": i, "of": 4} for i in range(4)]
     m = 8 if tier == "quick" else 96
     js += [{"sub": "layout", "chunk": i, "of": m} for i in range(m)]
-    js += [{"sub": "bundled"}]
+    js += [{"sub": "bundled"}, {"sub": "names"}, {"sub": "history"}]
     js.append({"sub": "space", "chunk": 0, "of": n, "hashseed": 1 + seed % 1000, "primary": False})
     return js
 
@@ -56,9 +56,10 @@ def bb_objects():
 
 
 def canon(c):
-    ren = {"tie0": "tie_0", "tie1": "tie_1"}
-    r = lambda n: ren.get(n, n)
     g = c.graph
+    # the shared constant nodes are recognised by their type, whatever they are called
+    ren = {n: f"<const{g.nodes[n].get('type')}>" for n in g.nodes if g.nodes[n].get("type") in ("0", "1")}
+    r = lambda n: ren.get(n, n)
     nodes = sorted((r(n), g.nodes[n].get("type"), bool(g.nodes[n].get("output", False))) for n in g.nodes)
     edges = sorted((r(u), r(v)) for u, v in g.edges)
     bbs = sorted((k, b.name, tuple(sorted(b.inputs())), tuple(sorted(b.outputs()))) for k, b in c.blackboxes.items())
@@ -428,17 +429,79 @@ def run_bundled(job, acc):
     acc.observe(used)
 
 
+def names_modules():
+    """Nets called like either parser's constant nodes, next to literal constants."""
+    for nm in ("tie0", "tie1", "tie0_1", "tie"):
+        for lit in ("1'b0", "1'b1"):
+            for role in ("input", "wire"):
+                items = [["input", ["a"] + ([nm] if role == "input" else [])], ["output", ["y", "z"]]]
+                if role == "wire":
+                    items += [["wire", [nm]], ["gate", "not", [["U9", [nm, "a"]]]]]
+                items += [["gate", "and", [["U0", ["y", nm, lit]]]], ["bb", "ff", "f0", [["clk", lit], ["d", nm], ["q", "z"]]]]
+                yield {"name": "top", "ports": items[0][1] + ["y", "z"], "items": items}
+
+
+def run_names(job, acc):
+    for m in names_modules():
+        text = V.render(V.module_tokens(m))
+        acc.states += 1
+        acc.nontrivial += 1
+        check_text(acc, text, "top", {"kind": "module", "module": m}, "names", m)
+        acc.sample({"text": text})
+    acc.observe(acc.states)
+
+
+def run_history(job, acc):
+    """Sequences of parses in ONE process: the same blackbox type name bound to different pin lists from
+    call to call, different module names, fast and full interleaved.  The LAST parse is judged."""
+    import circuitgraph as cg
+
+    def text_for(ins, outs, conn_pins):
+        pins = [[p, {"CK": "a", "D": "b", "R": "a", "Q": "y", "QN": None}[p]] for p in conn_pins]
+        m = {"name": "top", "ports": ["a", "b", "y"], "items": [["input", ["a", "b"]], ["output", ["y"]], ["bb", "ff", "f0", pins]]}
+        return V.render(V.module_tokens(m)), m
+
+    defs = [(["CK", "D", "R"], ["Q"]), (["CK", "D"], ["Q"]), (["CK", "D"], ["Q", "QN"])]
+    for (i1, o1), (i2, o2) in itertools.permutations(defs, 2):
+        for first_fast in (True, False):
+            t1, _m1 = text_for(i1, o1, i1 + o1)
+            t2, _m2 = text_for(i2, o2, i2 + o2)
+            acc.states += 1
+            acc.nontrivial += 1
+            acc.transitions += 1
+            case = {"kind": "history", "defs": [[i1, o1], [i2, o2]], "first_fast": first_fast, "site": "history"}
+            try:
+                cg.io.verilog_to_circuit(t1, "top", blackboxes=[cg.BlackBox("ff", i1, o1)], fast=first_fast)
+                full = cg.io.verilog_to_circuit(t2, "top", blackboxes=[cg.BlackBox("ff", i2, o2)])
+                fast = cg.io.verilog_to_circuit(t2, "top", blackboxes=[cg.BlackBox("ff", i2, o2)], fast=True)
+            except Exception as e:  # noqa: BLE001
+                acc.violation("history", f"raises-after-history:{common.exc_name(e)}", case, repr(e)[:200])
+                continue
+            if canon(full) != canon(fast):
+                a, b = canon(full), canon(fast)
+                d1 = [x for x in a[0] if x not in b[0]][:3] + [x for x in a[2] if x not in b[2]][:2]
+                d2 = [x for x in b[0] if x not in a[0]][:3] + [x for x in b[2] if x not in a[2]][:2]
+                acc.violation("history", "parsers-differ-after-history", case, f"only full {d1}; only fast {d2}")
+            else:
+                acc.outcome("agree")
+    acc.sample({"defs": defs})
+    acc.observe(acc.states)
+
+
 def run(job):
     common.setup_paths()
     acc = Acc(job)
-    {"space": run_space, "perm": run_perm, "bb": run_bb, "layout": run_layout, "bundled": run_bundled}[job["sub"]](job, acc)
+    {"names": run_names, "history": run_history, "space": run_space, "perm": run_perm, "bb": run_bb, "layout": run_layout, "bundled": run_bundled}[job["sub"]](job, acc)
     return acc.result()
 
 
 def replay(case, job):
     common.setup_paths()
     acc = Acc(job)
-    if case["kind"] == "bundled":
+    if case["kind"] == "history":
+        run_history(job, acc)
+        acc.violations = [v for v in acc.violations if v["case"].get("defs") == case["defs"] and v["case"].get("first_fast") == case["first_fast"]]
+    elif case["kind"] == "bundled":
         run_bundled(dict(job, tier="thorough"), acc)
         acc.violations = [v for v in acc.violations if v["case"].get("file") == case["file"]]
     else:
